@@ -298,6 +298,11 @@ func genPDU(l PDULayout, sb *strings.Builder) {
 	w("	vAssert(%q, err == nil)", lab("C01", "encode-succeeds"))
 	w("	if err != nil { vReach(\"end\"); return }")
 	w("	fixed, tlvArea := vImage_%s(p, cnt, blen, hexraw, tags, tvals)", T)
+	if l.Pkg == "smgp30" && T == "ActiveTestResp" {
+		// the library emits one Reserved octet after the header; the specification has no body.
+		// Excused only in exactly that shape: spec image + one octet, length word = 13.
+		w("	vKnown(\"KF-smgp-activetestresp-one-octet-body\", %q, vAnd(len(b) == len(fixed)+1, vAnd(int(vBE32(b)) == len(b), vEqBytes(b[4:vMin(len(fixed), len(b))], fixed[4:]))))", lab("C02", "image*"))
+	}
 	if l.Hdr != "none" {
 		w("	vAssert(%q, vAnd(len(b) >= 4, int(vBE32(b)) == len(b)))", lab("C01", "length-prefix-is-byte-count"))
 	}
@@ -350,7 +355,15 @@ func genPDU(l PDULayout, sb *strings.Builder) {
 	w("		// the encoder's bytes belong to the caller: a later encode (which may get the same pooled buffer) must not change them")
 	w("		other := new(%s)", T)
 	w("		_, _ = other.IEncode()")
-	w("		vAssert(%q, vAnd(len(b) >= len(fixed), vEqBytes(b[:vMin(len(fixed), len(b))], fixed)))", lab("C12", "encoded-bytes-survive-release-and-later-encode"))
+	// (compared with the independently assembled image, not with a copy of b: in the model a released
+	// pooled buffer is overwritten at once. The length word is compared with len(b) instead of the
+	// image's, so that the one type whose body differs from the specification - SMGP ActiveTestResp -
+	// is not reported here as well.)
+	skip := 0
+	if l.Hdr != "none" {
+		skip = 4
+	}
+	w("		vAssert(%q, vAnd(vAnd(len(b) >= len(fixed), len(b) >= %d), vAnd(%s, vEqBytes(b[%d:vMin(len(fixed), len(b))], fixed[%d:]))))", lab("C12", "encoded-bytes-survive-release-and-later-encode"), skip, map[bool]string{true: "int(vBE32(b)) == len(b)", false: "true"}[skip == 4], skip, skip)
 	w("	}")
 	w("	vReach(\"end\")")
 	w("}")
